@@ -12,6 +12,7 @@ import (
 
 	"github.com/benoitkugler/gomacro/analysis"
 	"golang.org/x/tools/go/packages"
+	"verif.test/mc/explore"
 	"verif.test/mc/fam"
 	"verif.test/mc/prog"
 )
@@ -319,5 +320,81 @@ func init() {
 			"in-memory *packages.Package is equivalent to packages.Load for the fields gomacro reads (loader conformance pass: check C17/loader)",
 		},
 		Eval: evalC10,
+		More: []*ProgCheck{{
+			// what users get goes through analysis.LoadSources: the enums found from packages loaded by the
+			// real loader must be the ones found from the in-memory packages the oracle above has examined
+			Family: "F-realloader/F-enum", Synth: realLoaderEnumSynth,
+			Bound: map[string]int{"quick": 2, "thorough": 2}, Eval: evalC10RealLoader,
+		}},
 	})
+}
+
+// realLoaderEnumSynth keeps the deviations that decide where the constants live and what their
+// trailing comments say (the loader decides which files are parsed, and how); any other deviation
+// collapses onto the scaffold.
+func realLoaderEnumSynth(c explore.Chooser) *prog.Program {
+	p := fam.Enum(c)
+	for _, f := range p.Features {
+		if !strings.HasPrefix(f, "T1.loc") && !strings.Contains(f, ".comment=") {
+			p = fam.Enum(&explore.Fixed{})
+			break
+		}
+	}
+	p.Family = "F-realloader/" + p.Family
+	return p
+}
+
+// enumView describes the enums of an analysis by name: kind flags, members in order with value and comment.
+func enumView(an *analysis.Analysis) map[string]string {
+	out := map[string]string{}
+	for t, n := range an.Types {
+		en, ok := n.(*analysis.Enum)
+		if !ok {
+			continue
+		}
+		var b strings.Builder
+		fmt.Fprintf(&b, "iota=%v", en.IsIota)
+		for _, m := range en.Members {
+			fmt.Fprintf(&b, " | %s=%s //%s", m.Const.Name(), m.Const.Val().ExactString(), m.Comment)
+		}
+		out[t.String()] = b.String()
+	}
+	return out
+}
+
+func evalC10RealLoader(e *Eval) {
+	disk, _, err := loadFromDisk(e)
+	if err != nil {
+		e.Res.Internal = err.Error()
+		return
+	}
+	am, pm := e.L.Analyse(0)
+	ad, pd := disk.Analyse(0)
+	if (pm == nil) != (pd == nil) {
+		e.Fail("loader-independent", "analysis outcome differs", fmt.Sprintf("analysis of the in-memory packages: %v; of the packages loaded by LoadSources: %v", pm, pd))
+		return
+	}
+	if pm != nil {
+		e.Res.Outcome = "refused by both"
+		return
+	}
+	e.Res.Nontrivial = true
+	e.Res.Traces = 1
+	vm, vd := enumView(am), enumView(ad)
+	var names []string
+	for k := range vm {
+		names = append(names, k)
+	}
+	for k := range vd {
+		if _, ok := vm[k]; !ok {
+			names = append(names, k)
+		}
+	}
+	sort.Strings(names)
+	for _, k := range names {
+		if vm[k] != vd[k] {
+			e.FailX("loader-independent", "enum differs through LoadSources", fmt.Sprintf("%s: from the packages loaded by analysis.LoadSources: [%s]; from the in-memory packages (checked against go/types above): [%s]", k, vd[k], vm[k]), vm[k], vd[k])
+		}
+	}
+	e.Res.Outcome = fmt.Sprintf("enums=%d identical", len(names))
 }
